@@ -97,8 +97,142 @@ def equivalent(e_in, e_outs: Sequence[Any], *, K: int = 2, timeout_ms: int = 500
         res.verdict = 'unknown'
         res.note = s.reason_unknown()
         return res
-    # replay the model through the independent evaluator (under every reading encoded)
-    m = s.model()
+    # replay the model through the independent evaluator (under every reading encoded); when the model depends on an
+    # arbitrary interpretation of an uninterpreted function (sqrt, log, trigonometry, gcd, **), pin that function at the
+    # model's argument values to Python's own result and solve again (counterexample-guided refinement, bounded)
+    for _round in range(8):
+        m = s.model()
+        verdict = _replay(res, m, encs, e_in, e_outs, conj)
+        if verdict != 'norepro' or not res.uses_uf:
+            break
+        pins = _pin_ufs(m, encs)
+        if not pins:
+            break
+        for c in pins:
+            s.add(c)
+        r = s.check()
+        res.secs = time.time() - t0
+        if r == z3.unsat:
+            res.verdict = 'unsat'
+            res.note = f'after pinning uninterpreted functions at {len(pins)} points'
+            res.vin = res.vout = res.valuation = None
+            return res
+        if r != z3.sat:
+            res.verdict = 'unknown'
+            res.note = s.reason_unknown()
+            return res
+        res.vin = res.vout = res.valuation = None
+    return res
+
+
+def _pyfun(name, args):
+    import math
+    from fractions import Fraction
+    fl = [float(a) for a in args]
+    try:
+        if name == 'pow':
+            b, e = args
+            if e.denominator == 1 and abs(int(e)) <= 64 and not (b == 0 and e < 0):
+                return Fraction(b) ** int(e)
+            return None
+        if name == 'gcd':
+            if all(a.denominator == 1 for a in args):
+                return Fraction(math.gcd(*[int(a) for a in args]))
+            return None
+        if name == 'sqrt':
+            v = math.sqrt(fl[0])
+        elif name == 'log':
+            v = math.log10(fl[0]) if fl[1] == 10 else math.log(fl[0], fl[1])
+        elif name == 'atan2':
+            v = math.atan2(fl[0], fl[1])
+        else:
+            table = {'sin': math.sin, 'cos': math.cos, 'tan': math.tan, 'asin': math.asin, 'acos': math.acos, 'atan': math.atan, 'deg': math.degrees, 'rad': math.radians}
+            if name not in table:
+                return None
+            v = table[name](fl[0])
+        if v != v or v in (float('inf'), float('-inf')):
+            return None
+        return Fraction(v)
+    except (ValueError, ZeroDivisionError, OverflowError):
+        return None
+
+
+def _pin_ufs(m, encs):
+    from fractions import Fraction
+    pins = []
+    for tr_in, tr_out, *_ in encs:
+        for tr in (tr_in, tr_out):
+            for name, args, app in tr.uf_apps:
+                vals = []
+                ok = True
+                for a in args:
+                    v = m.eval(a, model_completion=True)
+                    if not z3.is_rational_value(v):
+                        ok = False
+                        break
+                    vals.append(Fraction(v.numerator_as_long(), v.denominator_as_long()))
+                if not ok:
+                    continue
+                pv = _pyfun(name, vals)
+                if pv is None:
+                    continue
+                cond = z3.And(*[a == sem.real_const(v) for a, v in zip(args, vals)])
+                pins.append(z3.Implies(cond, app == sem.real_const(pv)))
+    return pins
+
+
+class _FloatHeap(sem.Heap):
+    """the same valuation with every number read as a Python float (native arithmetic, as constant folding uses)"""
+
+    def __init__(self, inner):
+        self.inner = inner
+        self.reading = getattr(inner, 'reading', 'list')
+
+    @staticmethod
+    def _f(v):
+        from fractions import Fraction
+        return float(v) if isinstance(v, Fraction) else v
+
+    def this(self):
+        return self.inner.this()
+
+    def alias(self, name):
+        return self._f(self.inner.alias(name))
+
+    def field(self, msg, name):
+        return self._f(self.inner.field(msg, name))
+
+    def alen(self, arr):
+        return self.inner.alen(arr)
+
+    def aelem(self, arr, i):
+        return self._f(self.inner.aelem(arr, i))
+
+    def rlist(self, lo, hi, exmin, exmax):
+        return [self._f(x) for x in self.inner.rlist(lo, hi, exmin, exmax)]
+
+
+def _float_run_agrees(m, encs, e_in, e_outs, conj) -> bool:
+    import math
+    try:
+        for tr_in, tr_out, *_ in encs:
+            a = _pyval(e_in, _FloatHeap(sem.ModelHeap(m, tr_in)))
+            hb = _FloatHeap(sem.ModelHeap(m, tr_out))
+            b = _conj_val(e_outs, hb) if conj else _pyval(e_outs[0], hb)
+            if a[0] != 'val' or b[0] != 'val':
+                return False
+            x, y = a[1], b[1]
+            if isinstance(x, bool) or isinstance(y, bool) or isinstance(x, str) or isinstance(y, str):
+                if x != y:
+                    return False
+            elif not math.isclose(float(x), float(y), rel_tol=1e-12, abs_tol=1e-12):
+                return False
+        return True
+    except Exception:
+        return False
+
+
+def _replay(res, m, encs, e_in, e_outs, conj) -> str:
     try:
         differs = True
         for tr_in, tr_out, vi, di, vout, dout, typing in encs:
@@ -113,13 +247,18 @@ def equivalent(e_in, e_outs: Sequence[Any], *, K: int = 2, timeout_ms: int = 500
     except Exception as ex:  # model could not be read back
         res.verdict = 'norepro'
         res.note = f'model read-back failed: {type(ex).__name__}: {ex}'
-        return res
+        return res.verdict
+    if differs and _float_run_agrees(m, encs, e_in, e_outs, conj):
+        # the two sides only differ by IEEE rounding of a folded constant (exact rationals vs Python floats): outside the claim
+        res.verdict = 'rounding'
+        res.note = 'differs in exact arithmetic only; equal when evaluated with Python floats'
+        return res.verdict
     if differs:
         res.verdict = 'sat'
     else:
         res.verdict = 'norepro'
         res.note = f'z3 model does not replay in the Python evaluator: in={res.vin} out={res.vout}'
-    return res
+    return res.verdict
 
 
 def identically_zero(e, K: int = 2, timeout_ms: int = 3000) -> Optional[bool]:
